@@ -337,7 +337,7 @@ class ODLDecoder(PVLDecoder):
                 r"(?P<dt>.+?)"  # the part before the sign
                 r"(?P<sign>[+-])"  # required sign
                 r"(?P<hour>0?[0-9]|1[0-2])"  # 0 to 12
-                fr"(?:{self.grammar._M_frag})?",  # Minutes
+                fr"(?::?{self.grammar._M_frag})?",  # Minutes
                 value,
             )
             if match is not None:
